@@ -33,7 +33,7 @@ def gen_cases(seed, tier):
         spec["species"] = list(spec["x0"].keys())
         for k in list(spec["parameters"]):
             if k.startswith(("k_", "kg_")): spec["parameters"][k] = rng.choice([0.05, 0.1, 0.3])
-        cases.append({"kind": "model", "spec": spec, "how": rng.choice(["pickle", "deepcopy", "pickle_twice", "copy_of_copy"]), "when": rng.choice(["fresh", "uninitialised", "after_sim", "after_edit"]),
+        cases.append({"kind": "model", "spec": spec, "how": rng.choice(["pickle", "deepcopy", "pickle_twice", "copy_of_copy"]), "when": rng.choice(["fresh", "uninitialised", "after_sim", "after_edit", "after_edit_uninit", "after_edit_uninit"]),
                       "seed": rng.randint(1, 2**31), "points": [{s: float(rng.randint(0, 6)) for s in spec["x0"]} for _ in range(2)]})
     for _ in range(25 if tier == "quick" else 300):
         cases.append({"kind": "lineage", "seed": rng.randint(1, 2**31), "splitter": rng.choice(["perfect", "general", "lineage"]), "how": rng.choice(["pickle", "deepcopy"]),
@@ -45,7 +45,7 @@ def _observe(M, points, V=2.0):
     s2i = M.get_species2index(); pv = np.array(M.get_parameter_values(), dtype=float)
     out = {"species": {s: float(v) for s, v in M.get_species_dictionary().items()}, "params": {k: float(v) for k, v in M.get_parameter_dictionary().items()},
            "S": np.asarray(M.py_get_update_array()).tolist(), "Sd": np.asarray(M.py_get_delay_update_array()).tolist(),
-           "delays": [type(d).__name__ for d in M.get_delays()], "rules": [[r[0], json.dumps(r[1], sort_keys=True), str(r[2])] for r in M.get_rules()], "rates": [], "delay_vals": []}
+           "delays": [type(d).__name__ for d in M.get_delays()], "has_delays": bool(M.has_delays()), "n_reactions": int(M.get_number_of_reactions()) if hasattr(M, "get_number_of_reactions") else len(M.get_propensities()), "rules": [[r[0], json.dumps(r[1], sort_keys=True), str(r[2])] for r in M.get_rules()], "rates": [], "delay_vals": []}
     for pt in points:
         x = np.zeros(len(s2i))
         for s, v in pt.items():
@@ -87,10 +87,16 @@ def impl_case(case):
     if case["when"] == "after_sim": _sim(M, 3, has_delay)
     if case["when"] == "after_edit":
         M.create_parameter("extra_p", 2.5); M.create_reaction(["Znew"], [], "massaction", {"k": "extra_p"}); M.set_species({"Znew": 4.0}); M.py_initialize()
+    if case["when"] == "after_edit_uninit":
+        # edited since the last initialisation and copied BEFORE re-initialisation: a (first or further) delayed reaction and a new
+        # parameter; flags and lists that are only rebuilt at initialisation are stale at this moment (seeded changes S_C17, S2_C17)
+        M.create_parameter("extra_p", 2.5); M.create_reaction(["Znew"], [], "massaction", {"k": "extra_p"}, "fixed", [], ["Znew2"], {"delay": 0.5}); M.set_species({"Znew": 4.0})
+        has_delay = True
     C = _dup(M, case["how"])
-    if case["when"] == "uninitialised": M.py_initialize(); C.py_initialize()
-    pts = [dict(p, Znew=2.0) for p in case["points"]]
     out = {"problems": []}
+    if bool(M.has_delays()) != bool(C.has_delays()): out["problems"].append("observation has_delays: original %r copy %r (copied %s)" % (bool(M.has_delays()), bool(C.has_delays()), case["when"]))
+    if case["when"] in ("uninitialised", "after_edit_uninit"): M.py_initialize(); C.py_initialize()
+    pts = [dict(p, Znew=2.0, Znew2=0.0) for p in case["points"]]
     oa, ob = _observe(M, pts), _observe(C, pts)
     for k in oa:
         if not _nan_eq(oa[k], ob[k]): out["problems"].append("observation %s: original %r copy %r" % (k, str(oa[k])[:200], str(ob[k])[:200]))
